@@ -17,8 +17,9 @@ from typing import Any, Callable, Dict, List, Optional
 
 VERIF = os.path.dirname(os.path.dirname(os.path.abspath(__file__)))
 REPO = os.environ.get("COLA_REPO", "/repo")
-EVIDENCE_DIR = os.path.join(VERIF, "evidence")
-REPLAY_OUT = os.path.join(VERIF, "replay", "out")
+# seed sweeps (tools/run_round.sh, run_seeds.sh) redirect both so that runs on a deliberately broken tree never overwrite the committed evidence
+EVIDENCE_DIR = os.environ.get("VERIF_EVIDENCE_DIR") or os.path.join(VERIF, "evidence")
+REPLAY_OUT = os.environ.get("VERIF_REPLAY_OUT") or os.path.join(VERIF, "replay", "out")
 KNOWN_FINDINGS = os.path.join(VERIF, "known_findings.json")
 BASELINE = os.path.join(VERIF, "baseline", "obligations.json")
 
